@@ -20,7 +20,7 @@ func VerifC06ValidationErrorBody() {
 	for i := 0; i < n; i++ {
 		id := string(rune('a' + i))
 		// the rule's message: protovalidate always supplies one for its standard rules
-		msg := verif.String(id+".message", 3)
+		msg := verif.String(id+".message", verif.L(3))
 		verif.Assume(msg != "")
 		v := &validate.Violation{Message: proto.String(msg)}
 		switch verif.Choice(id+".path", 4) {
@@ -28,11 +28,11 @@ func VerifC06ValidationErrorBody() {
 		case 1: // a field path object without elements
 			v.Field = &validate.FieldPath{}
 		case 2:
-			f := verif.StringIn(id+".f0", 3, "a-z_")
+			f := verif.StringIn(id+".f0", verif.L(3), "a-z_")
 			verif.Assume(f != "")
 			v.Field = &validate.FieldPath{Elements: []*validate.FieldPathElement{{FieldName: proto.String(f)}}}
 		default:
-			f, g := verif.StringIn(id+".f0", 3, "a-z_"), verif.StringIn(id+".f1", 3, "a-z_")
+			f, g := verif.StringIn(id+".f0", verif.L(3), "a-z_"), verif.StringIn(id+".f1", verif.L(3), "a-z_")
 			verif.Assume(f != "" && g != "")
 			v.Field = &validate.FieldPath{Elements: []*validate.FieldPathElement{{FieldName: proto.String(f)}, {FieldName: proto.String(g)}}}
 		}
